@@ -81,6 +81,20 @@ def make_sequences(n, sites, rng, style):
     sequences, the rest is random, so that one clade keeps large partials while the other
     underflows, until the branches are stretched."""
     cols = []
+    if style == "outlier":
+        # many distinct but easy patterns (constant columns with two deviating taxa) and a single
+        # hard one (a random column): only that column reaches the bottom of the sub-normal band
+        hard = rng.randint(0, sites - 1)
+        for j in range(sites):
+            if j == hard:
+                cols.append([rng.choice("ACGT") for _ in range(n)])
+                continue
+            major = "ACGT"[j % 4]
+            col = [major] * n
+            col[j % n] = "ACGT"[(j + 1) % 4]
+            col[(j * 7 + 3) % n] = "ACGT"[(j // n + 2) % 4]
+            cols.append(col)
+        return ["".join(cols[k][i] for k in range(sites)) for i in range(n)]
     if style == "clade":
         half = n // 2
         for _ in range(sites):
@@ -305,7 +319,7 @@ def find_scales(machine, kappa):
     """Scale factors that put the smallest per-site likelihood into each band
     (by search on the reference), None when a band is unreachable for this scene."""
     out = {"normal": None, "subnormal": None, "underflow": None}
-    grid = [0.0004 * (1.45 ** i) for i in range(32)]
+    grid = [0.0004 * (1.45 ** i) for i in range(32)] if machine.recipe["sites"] < 100 else [0.02 * (1.6 ** i) for i in range(14)]
     vals = []
     for s in grid:
         _, mn = machine.reference(s, kappa)
@@ -327,6 +341,19 @@ def find_scales(machine, kappa):
                 lo = mid
             else:
                 hi = mid
+    # the bottom of the sub-normal band (5e-324 .. 1e-321), where a double keeps only a few bits
+    if out["subnormal"] is not None and out["underflow"] is not None:
+        lo, hi = out["subnormal"], out["underflow"]
+        for _ in range(40):
+            mid = math.sqrt(lo * hi)
+            _, mn = machine.reference(mid, kappa)
+            if LOG_MIN_SUBNORMAL + 0.1 <= mn <= LOG_MIN_SUBNORMAL + 5.0:
+                out["deep"] = mid
+                break
+            if mn > LOG_MIN_SUBNORMAL + 5.0:
+                lo = mid
+            else:
+                hi = mid
     return out
 
 
@@ -337,20 +364,23 @@ def generate(seed, index, tier):
     style = k.choice(["random", "conserved", "conserved", "clade"])
     if style == "clade":
         taxa = k.choice([1100, 1200]) if k.bernoulli(0.5) or tier == "thorough" else taxa
-    many_sites = style == "random" and 250 <= taxa <= 560 and k.bernoulli(0.3)
+    # more than 512 distinct patterns (a kernel that works on blocks of patterns must not lose any)
+    many_sites = style == "random" and taxa in (250, 330, 340, 400) and k.bernoulli(0.25)
+    if many_sites:
+        style = "outlier"
     recipe = {"taxa": taxa, "sites": (k.randint(560, 700) if many_sites else k.randint(6, 24)) if taxa < 1000 else k.randint(4, 8), "shape": k.choice(["caterpillar", "balanced", "random"]) if style != "clade" else k.choice(["caterpillar", "balanced"]), "style": style,
               "model": k.choice(["JC69", "HKY"]), "tip_states": k.bernoulli(0.4), "data_seed": k.next64() & 0xFFFFFFFF, "kappa": round(k.uniform(0.5, 6.0), 3),
               "categories": k.choice([1, 1, 2, 4]), "shape_value": round(k.uniform(0.3, 2.0), 3), "invariant": k.choice([None, None, 0.2, 0.5])}
     m = Machine(recipe, EventLog())
     sc = find_scales(m, recipe["kappa"])
-    avail = [b for b in ("normal", "subnormal", "underflow") if sc[b] is not None]
+    avail = [b for b in ("normal", "subnormal", "deep", "underflow") if sc.get(b) is not None]
     w = st["workload"]
     ops = []
     n_ops = w.randint(6, 14)
 
     def pick_scale(band=None):
         b = band or w.choice(avail)
-        return sc[b] * math.exp(0.02 * w.normal()) if b != "subnormal" else sc[b]
+        return sc[b] * math.exp(0.02 * w.normal()) if b not in ("subnormal", "deep") else sc[b]
 
     if style == "clade":
         # switch to rescaling while the identical clade still has large partials, then stretch
@@ -377,6 +407,13 @@ def generate(seed, index, tier):
         else:
             ops.append({"op": "force_rescale"})
     ops.append({"op": "eval"})
+    if sc.get("deep") is not None and w.bernoulli(0.7):
+        # the evaluation that has to *decide* the switch sees the bottom of the band: put it first,
+        # while the flag is still off (single or as one row of a batch)
+        first = [{"op": "set", "scales": [sc["deep"]]}, {"op": "eval"}]
+        if "normal" in avail and w.bernoulli(0.4):
+            first = [{"op": "set", "scales": [sc["normal"], sc["deep"]]}, {"op": "eval"}]
+        ops = first + ops
     # make sure the history revisits an easy input after a hard one
     if "normal" in avail and len(avail) > 1:
         ops += [{"op": "set", "scales": [sc[avail[-1]]]}, {"op": "eval"}, {"op": "set", "scales": [sc["normal"]]}, {"op": "eval"}]
